@@ -32,6 +32,7 @@ pub fn aig_to_cells_techmap(aig: &AigModule, original: &GateModule) -> GateModul
         nets: Vec::new(),
         cells: Vec::new(),
         ffs: original.ffs.clone(),
+        ram_blocks: original.ram_blocks.clone(),
     };
     out.nets = original
         .nets
@@ -41,6 +42,7 @@ pub fn aig_to_cells_techmap(aig: &AigModule, original: &GateModule) -> GateModul
                 NetDriver::Const(b) => NetDriver::Const(b),
                 NetDriver::PortInput => NetDriver::PortInput,
                 NetDriver::FfQ(idx) => NetDriver::FfQ(idx),
+                NetDriver::RamRead(ram, port, bit) => NetDriver::RamRead(ram, port, bit),
                 _ => NetDriver::Undriven,
             },
             origin: n.origin,
@@ -155,16 +157,21 @@ pub fn aig_to_cells_techmap(aig: &AigModule, original: &GateModule) -> GateModul
         }
     }
 
-    // Wire sinks: ports first, then FF Ds.
+    // Wire sinks: ports first, then FF Ds, then RAM input nets (in
+    // `for_each_ram_input_net` order, see `aigify`).
     let port_out_count: usize = original
         .ports
         .iter()
         .filter(|p| matches!(p.dir, PortDir::Output | PortDir::Inout))
         .map(|p| p.nets.len())
         .sum();
+    let ff_count = original.ffs.len();
+    let mut ram_nets: Vec<NetId> = Vec::new();
     for (i, sink) in aig.sinks.iter().enumerate() {
         let src_net = resolve(&mut out, &mut pos_net, &mut neg_net, sink.edge);
-        if i < port_out_count {
+        if i >= port_out_count + ff_count {
+            ram_nets.push(src_net);
+        } else if i < port_out_count {
             let target = sink.target;
             if src_net != target {
                 let cell_idx = out.cells.len();
@@ -180,6 +187,12 @@ pub fn aig_to_cells_techmap(aig: &AigModule, original: &GateModule) -> GateModul
             out.ffs[ff_idx].d = src_net;
         }
     }
+    let mut ram_nets = ram_nets.into_iter();
+    out.for_each_ram_input_net_mut(|n| {
+        if let Some(src) = ram_nets.next() {
+            *n = src;
+        }
+    });
     out
 }
 
